@@ -15,6 +15,9 @@ pub enum KeyMode {
     Transparent,
     /// index = key % m, conflict = mix(key) | 1  — forces index collisions
     Collide { m: u64 },
+    /// a real key type with the library's own key builder: TransparentKeyBuilder for the
+    /// integer types, DefaultKeyBuilder for "string" (inserted as String, looked up as &str)
+    Typed { ty: String },
 }
 
 #[derive(Serialize, Deserialize, Clone, Debug, PartialEq, Eq)]
